@@ -156,6 +156,10 @@ def run_fit(cfg: Dict[str, Any], seed: int, feats, criterion_fn) -> Dict[str, An
         hedger.eval()              # history: the hedger was used for pricing before this fit()
     if cfg.get("model_eval"):      # history: only the MODEL was put in evaluation mode (a pre-trained network handed over in eval mode)
         hedger.model.eval()
+    if cfg.get("pre_forward"):     # history: the hedger was CALLED directly on an input of the training batch's shape before this fit()
+        with torch.no_grad():      # (a position other than zero is left in the state the prev_hedge input reads)
+            hedger(torch.full((cfg["n"], 1, model.lin.in_features), 0.5, dtype=DT))
+        slog.clear(); stock.calls.clear()
     if cfg.get("stale"):           # history: a loss was back-propagated by hand before this fit(); its gradient is still there
         for p_ in hedger.parameters():
             if not isinstance(p_, torch.nn.parameter.UninitializedParameter):
@@ -428,6 +432,10 @@ def check(ctx: Ctx) -> None:
     inf_cfgs = [{"k": k, "n": 2, "ntimes": 1, "validation": v, "optclass": oc, "lazy": False, "init": "default", "pre_eval": False, "extra": False, "stale": False, "nonfinite": True}
                 for k in (1, 3) for v in (True, False) for oc in (True, False)]
     stale_cfgs += inf_cfgs
+    # the hedger called directly (hedger(input)) before fit(): every training batch still starts from a zero position, as the explicit
+    # loop on a fresh hedger does
+    stale_cfgs += [{"k": k, "n": 2, "ntimes": 1, "validation": v, "optclass": oc, "lazy": False, "init": "default", "pre_eval": False, "extra": False, "stale": False, "pre_forward": True}
+                   for k in (1, 2) for v in (True, False) for oc in (True, False)]
     for c_ in cfgs + extra_cfgs + hedge_cfgs:
         c_.setdefault("stale", False)
     traces = []
@@ -435,6 +443,8 @@ def check(ctx: Ctx) -> None:
     if ctx.tier == "thorough":                    # every configuration with every feature set / criterion, not a rotation
         plan = [(i * len(setups) + j, cfg, j) for i, cfg in enumerate(cfgs + extra_cfgs + hedge_cfgs + stale_cfgs) for j in range(len(setups))]
     for i, cfg, si in plan:
+        if cfg.get("pre_forward"):
+            si = 0                       # (the feature set with prev_hedge)
         feats, crit = setups[si]
         if cfg["extra"]:
             crit = oce
